@@ -18,6 +18,7 @@ INTS = [-6, -5, -1, 0, 1, 2, 3, 4, 5, 6, 9, 10, 11, 13, 14, 15, 80, 100, 1023, 1
         2 ** 31, 2 ** 63 - 1, 2 ** 63, 10 ** 30, "5", " 5 ", "-5", "0x10", "5.0", "1e2", "", "ten", 5.0, 5.9, -0.0,
         float("nan"), float("inf"), True, "10", "1024", "3"]
 FLOATS = [-2.0, -1.5, -1.0, 0.0, -0.0, 0.25, 0.5, 0.75, 1.0, 2.0, 2.5, 10.0, 12.0, 12.5, 1e308, 5, 0, "0.25", "1e1", " 2.5",
+          0.1 + 0.2, 1 / 3, 4.35 * 100, 1e22, 5e-324, 2.0 ** -30, 123456789.12345678, "0.30000000000000004",
           "nan", "inf", "-inf", "abc", "", float("nan"), float("inf"), 10 ** 400, False, "2", "0.5"]
 BOOLS = [True, False, 0, 1, 2, -1, 0.0, 1.5, "true", "TRUE", "Yes", "off", "n", " on", "2", "maybe", "", "T", "F", "y", "NO"]
 ADDRS = ["1.2.3.4", "0.0.0.0", "255.255.255.255", "10.0.0.1", "256.1.1.1", "1.2.3", "01.2.3.4", " 1.2.3.4", "1.2.3.4 ",
@@ -37,7 +38,7 @@ SECRETS = ["s3cr3t!#1", "p\u00e4ss w\u00f6rd!", "hunter2!!", "x!y@z#", "tok!en~v
            "exactly-32-bytes-long-secret!!#32", "33-bytes-long-secret-value!!#0033x"]
 CHALLENGES = ["pw!one", b"pw!two", "", "\u00fcn\u00ef!", "x!" * 20, b"\x00\xff!", "pw!one ", "Pw!one", 5, None, ["pw"], "user:pass", "root:toor!",
               ":"]
-PLAIN = [None, True, False, 0, 7, -3, 2 ** 40, 1.5, -0.0, "str", "", "x y", [], [1], [1, "two", None], {}, {"a": 1},
+PLAIN = [None, True, False, 0, 7, -3, 2 ** 40, 1.5, -0.0, 0.1 + 0.2, [1 / 3, 1e22], "str", "", "x y", [], [1], [1, "two", None], {}, {"a": 1},
          [[1], {"b": [2]}], {"k": {"n": [1.5, None]}}, "\u00e9t\u00e9", "<&>", "key: v", "a\x85b", ["l\u2028s"], {"nel\x85": 1}]
 WRONG = [None, True, 0, 7, -3, 2 ** 70, 1.5, float("inf"), float("nan"), "str", "", b"bytes", [], [1], (1, 2), {}, {"a": 1},
          [[1], {"b": [2]}], Opaque(1), {"method": "xor"}, ("t",), [None]]
@@ -118,6 +119,8 @@ def candidate(rng, spec, ctx, depth=0):
             if getattr(ctx, "plain", False) and not kf:
                 kk = rng.choice(["k1", "k2", "k3", "a", "key x"])
             vv = gen_value(rng, vf, want, ctx, depth + 1) if vf else rng.choice(PLAIN if getattr(ctx, "plain", False) else WRONG[1:15])
+            if kk is None and kf:
+                continue          # a typed dict's key is never None (no text form in any format)
             try:
                 out[kk] = vv
             except TypeError:
